@@ -287,24 +287,25 @@ CLAIMED["C19"] = {
 }
 
 CLAIMED["C01"] = {
-    "text": "PROVED TIERS: (1) RDH level -- Theorem C01_rdh_tier: for EVERY link description of the producer-shaped grammar Spec/Grammar.v (any number of "
-            "heartbeat frames and pages, any orbits / bunch crossings / trigger types / detector-field status bits / packet counters / payload sizes within "
-            "the documented ranges; consecutive heartbeat frames in different orbits) and any placement of its packets in the input, `check sanity` and "
-            "`check all` without a target report nothing. (2) ITS level -- Theorem C01_its_tier: for EVERY link whose pages carry payloads of the word-level "
-            "producer grammar Spec/GrammarIts.v (IHW; trigger packets = TDH, data words of active lanes, TDT; no-data TDHs; packets continued over ANY number "
-            "of pages through TDT(packet_done=0) / IHW / TDH(continuation); DDW0 on the stop page; data formats 0 and 2; 0..15 bytes of padding; words given by "
-            "their DOCUMENTED bit layout, not by the code's accessors) `check sanity its` and `check all its` report nothing: per-word silent-step lemmas over "
-            "the packet-validator model, induction over items, pages, heartbeat frames and the link, composed with the RDH tier and the payload-cutting "
-            "theorems of C12. C01_membership_test_sound + C01_its_tier_checked: an executable membership test of that grammar (extracted, run on EVERY generated "
-            "conforming link in every run: all are members, and rendering them gives the generated bytes back) implies the hypotheses of the theorem. "
-            "NOT proved: the stave tier (`check all its-stave`; decided by correspondence and C13's local theorems) and calibration data words. The tie to the "
-            "code: regenerated constants; the whole-run model and the rebuilt binary and the real validator are all silent, in all five modes with mute / -E "
-            "options, on generated conforming streams (1..12 links, all barrels, both formats, continuations over 2..5 pages, no-data runs, PhT and internal "
-            "triggers, stave-level ALPIDE content).",
-    "note": "Partial proof, stated as such: category `proof` applies to the RDH and ITS tiers; for the stave tier and for CDWs this check is a differential check "
-            "over the grammar generator. Trusted: Coq kernel; gen translator; extraction + driver; harness; binary; our reading of the protocol documentation "
-            "(Spec/Grammar.v, Spec/GrammarIts.v, Spec/WordLayout.v).",
-    "technique": "Coq proof (producer grammar -> validator invariants by induction: RDH tier and ITS word-level tier; sound executable membership test run on every generated link) + five-mode silence of binary, validator and model on generated conforming streams",
+    "text": "PROVED FOR ALL FIVE CHECK MODES, for every stream of producer-shaped grammars written from the documentation: (1) RDH level -- C01_rdh_tier: "
+            "EVERY link description of Spec/Grammar.v (any number of heartbeat frames and pages, any orbits / bunch crossings / trigger types / detector-field "
+            "status bits / packet counters / payload sizes within the documented ranges) and any placement of its packets in the input draws no message from "
+            "`check sanity` / `check all`. (2) ITS level -- C01_its_tier: EVERY link whose pages carry payloads of the word-level grammar Spec/GrammarIts.v (IHW; "
+            "trigger packets = TDH, data words of active lanes, TDT; no-data TDHs; packets continued over ANY number of pages; DDW0 on the stop page; data formats "
+            "0 and 2; 0..15 bytes of padding; words given by their DOCUMENTED bit layout) draws no message from `check sanity its` / `check all its`. (3) stave "
+            "level -- C01_stave_tier: if moreover every trigger packet is stave-conforming (Spec/GrammarStave.v: its data words grouped by lane are the bytes of "
+            "ALPIDE lanes as the independent encoder of C13 produces them -- any hits, regions, busy words, idle bytes --, every lane with a chip, no fatal "
+            "announcement, no chip twice, one bunch crossing for all chips of all lanes, inner-barrel lanes carrying the chip named like the lane, and the lane set "
+            "is the barrel's: one inner group of 3 / 8 / 14) `check all its-stave` emits only ALPIDE statistics messages, no error. Proofs: silent-step lemmas per "
+            "word kind over the packet-validator model (with the readout-frame validator's state in stave mode), induction over items, pages, heartbeat frames "
+            "and the link, composed with the RDH invariants, the payload-cutting theorems of C12 and the frame theorems of C13. "
+            "C01_membership_test_sound / C01_its_tier_checked / C01_stave_tier_checked: executable membership tests of the grammars (extracted; sound) are run "
+            "on EVERY generated conforming link in every run: all are members (incl. all stave-level links of the three barrels), and rendering them gives the "
+            "generated bytes back -- so the theorems apply to each stream on which binary, validator and whole-run model are then observed to be silent in "
+            "all five modes with mute / -E options. NOT covered by the grammar: calibration data words.",
+    "note": "Trusted: Coq kernel; gen translator; extraction + driver; harness; binary; our reading of the protocol documentation (Spec/Grammar.v, "
+            "Spec/GrammarIts.v, Spec/GrammarStave.v, Spec/WordLayout.v, Spec/AlpideEnc.v). The model-to-code tie is the sampled correspondence (as for every property).",
+    "technique": "Coq proof (producer grammars -> validator invariants by induction, all three tiers; sound executable membership tests run on every generated link) + five-mode silence of binary, validator and model on generated conforming streams",
     "design_ref": "DESIGN.md section 8, C01",
 }
 
